@@ -64,9 +64,9 @@ func (c *c14) Plan(seed uint64, tier string, worker, workers, idx int) *Plan {
 	}
 	nExt := r.Range(1, 10)
 	p.Slots = 6
-	template := r.Intn(27) // 0-2 crowd, 3-6 chain, 7-9 kin, else free histories
-	g.charsetNamesOn = template >= 10 && r.Chance(1, 3)
-	if template >= 10 && r.Chance(1, 4) {
+	template := r.Intn(30) // 0-2 crowd, 3-6 chain, 7-9 kin, 10-12 fork, else free histories
+	g.charsetNamesOn = template >= 13 && r.Chance(1, 3)
+	if template >= 13 && r.Chance(1, 4) {
 		g.setCollide()
 	}
 	slot := 0
@@ -228,6 +228,86 @@ func (c *c14) Plan(seed uint64, tier string, worker, workers, idx int) *Plan {
 			}
 		}
 		ops = battery(ops, r.Range(1, 4), false)
+		ops = uses(ops)
+		p.Tasks = [][]Op{ops}
+		return p
+	}
+	if template < 13 {
+		// fork: a small TREE of extensions - N on some node of a detection path (often deep),
+		// two or three branches on N that tell two inputs apart, a sub-extension in each
+		// branch, sometimes a third level - registered in varying orders. Cousins must not
+		// disturb each other (cached ancestor lists, per-branch state keyed by depth).
+		nu := len(universe)
+		in1, in2 := universe[nu-2], universe[nu-1]
+		if r.Chance(1, 3) {
+			in1, in2 = universe[r.Intn(nu)], universe[r.Intn(nu)]
+		}
+		x1, x2 := lib.Header(in1.Bytes(), p.Limit0), lib.Header(in2.Bytes(), p.Limit0)
+		// the deepest node both paths share (by name), else any node of the first path
+		spot := ""
+		n1, n2 := lookupablePath(in1.Bytes()), lookupablePath(in2.Bytes())
+		for _, a := range n1 {
+			for _, b := range n2 {
+				if spot == "" && a != "" && a == b {
+					spot = a
+				}
+			}
+		}
+		if spot == "" || r.Chance(1, 4) {
+			spot = ""
+			for _, a := range n1 {
+				if a != "" && (spot == "" || r.Chance(1, 2)) {
+					spot = a
+				}
+			}
+		}
+		only := func(x, other []byte) model.Pred { // accepts x, rejects other when they can be told apart
+			for k := 1; k <= 32 && k <= len(x); k++ {
+				if k > len(other) || !bytesEqual(x[:k], other[:k]) {
+					return model.Pred{Prefix: hexOf(x[:k])}
+				}
+			}
+			if len(x) != len(other) {
+				if len(x) > len(other) {
+					return model.Pred{MinLen: len(x)}
+				}
+				return model.Pred{MaxLen: len(x)}
+			}
+			return model.Pred{}
+		}
+		N := g.accepting(spot, x1)
+		N.Pred = model.Pred{}
+		A := g.acceptingOn("", N, x1)
+		A.Pred = only(x1, x2)
+		B := g.acceptingOn("", N, x2)
+		B.Pred = only(x2, x1)
+		a := g.acceptingOn("", A, x1)
+		a.Pred = model.Pred{}
+		b := g.acceptingOn("", B, x2)
+		b.Pred = model.Pred{}
+		steps := []*model.Ext{A, B, a, b}
+		if r.Chance(1, 2) {
+			steps = []*model.Ext{A, a, B, b}
+		}
+		if r.Chance(1, 3) {
+			c := g.acceptingOn("", a, x1)
+			c.Pred = model.Pred{}
+			steps = append(steps, c)
+		}
+		if r.Chance(1, 3) {
+			C := g.acceptingOn("", N, x2)
+			C.Pred = model.Pred{Never: true}
+			steps = append(steps, C)
+		}
+		ops := []Op{{Kind: "extend", Ext: N}}
+		for _, e := range steps {
+			ops = append(ops, Op{Kind: "extend", Ext: e})
+			ops = append(ops, Op{Kind: "detect", In: &in1}, Op{Kind: "detect", In: &in2})
+			if g.mayLookup(e.Mime) && r.Chance(1, 2) {
+				ops = append(ops, Op{Kind: "lookup", Name: e.Mime, Ext: e})
+			}
+		}
+		ops = battery(ops, r.Range(1, 3), false)
 		ops = uses(ops)
 		p.Tasks = [][]Op{ops}
 		return p
@@ -533,4 +613,15 @@ func lookupablePath(x []byte) []string {
 		}
 	}
 	return out
+}
+
+func bytesEqual(a, b []byte) bool { return string(a) == string(b) }
+
+func hexOf(b []byte) string {
+	const digits = "0123456789abcdef"
+	out := make([]byte, 0, 2*len(b))
+	for _, c := range b {
+		out = append(out, digits[c>>4], digits[c&15])
+	}
+	return string(out)
 }
